@@ -56,6 +56,10 @@ func genC01(g *Gen) *Plan {
 		T := lifetimes[ep%len(lifetimes)]
 		return pick(g, T*1000-500, T*1000, T*1000+500, T*1000+1000, T*1000+1500, (T+hfp)*1000+1100)
 	})
+	if reapply && g.p(0.5) {
+		// (the configuration names a second cache after the one in use)
+		p.Configs[0].Caches = append(p.Configs[0].Caches, CacheCfg{Name: "cother", Size: 100, HitForPass: "1s"})
+	}
 	if reapply {
 		// the unchanged configuration is applied again while requests are in flight (an update
 		// that touched something else): the surviving cache keeps its entries and its fetches
@@ -115,6 +119,38 @@ func oracleC01(o *Outcome) []Violation {
 					out = append(out, violation("C01", "extra-fetch-in-lifetime", "upstream contacted inside the freshness lifetime",
 						"key %q: upstream request #%d (client op %d) arrived at t=%dms although fetch #%d (replied t=%dms) was cacheable for %ds",
 						key, u2.Serial, c2.Op, u2.ArriveT, u1.Serial, u1.ReplyT, u1.Lifetime))
+				}
+			}
+		}
+	}
+	// (2b) whatever markers may be in force: two requests that both say they took the fetching
+	// role (label "fetching") never have their upstream requests in flight at the same time
+	for _, key := range sortedUpKeys(byKey) {
+		ups := byKey[key]
+		if o.Plan.purges(key) || cfg.Caches[0].Size < 1000 {
+			continue // purge / eviction replace the entry: a new fetcher beside the old one is the stated exception
+		}
+		byReqView := map[*ReqRec]*View{}
+		for _, v := range views {
+			byReqView[v.R] = v
+		}
+		for i, u1 := range ups {
+			for _, u2 := range ups[i+1:] {
+				if u1.Req < 0 || u2.Req < 0 || u1.Task == u2.Task {
+					continue
+				}
+				v1, v2 := byReqView[o.Hist.Reqs[u1.Req]], byReqView[o.Hist.Reqs[u2.Req]]
+				if v1 == nil || v2 == nil || v1.XStatus != "fetching" || v2.XStatus != "fetching" || o.Hist.Reqs[u1.Req].Addr != o.Hist.Reqs[u2.Req].Addr {
+					continue
+				}
+				e1 := u1.EndSeq
+				if e1 == 0 {
+					e1 = 1 << 60
+				}
+				if u2.ArriveSeq > u1.ArriveSeq && u2.ArriveSeq < e1 {
+					o.Hist.Probes["two-fetching-labels-compared"]++
+					out = append(out, violation("C01", "two-fetchers-in-flight", "two requests holding the fetching role for one key at the same time",
+						"key %q: upstream request #%d (client op %d, label fetching) arrived at seq %d while #%d (client op %d, label fetching, seq %d..%d) was in flight", key, u2.Serial, o.Hist.Reqs[u2.Req].Op, u2.ArriveSeq, u1.Serial, o.Hist.Reqs[u1.Req].Op, u1.ArriveSeq, u1.EndSeq))
 				}
 			}
 		}
